@@ -117,11 +117,12 @@ namespace gtry::scl
 	UInt counterUpDown(Bit increment, Bit decrement, Bit reset, BitWidth ctrW, size_t resetValue) {
 		Counter ctr(ctrW, resetValue);
 
-		IF(increment)
+		// simultaneous increment and decrement cancel (also at the limits, where only one of them would be clamped)
+		IF(increment & !decrement)
 			IF(!ctr.isLast())
 				ctr.inc();
 
-		IF(decrement)
+		IF(decrement & !increment)
 			IF(!ctr.isFirst())
 				ctr.dec();
 
